@@ -666,7 +666,13 @@ func (r *Run) step(fr *frame, in ssa.Instruction) {
 		if name == "" {
 			name = x.Name()
 		}
-		o := r.NewObj("local:"+name, true)
+		var o *Obj
+		if x.Heap && x.Comment != "varargs" {
+			// escaping allocation (returned / stored): observed like a parameter object
+			o = r.NewObj("new:"+name, false)
+		} else {
+			o = r.NewObj("local:"+name, true)
+		}
 		fr.env[x] = VPtr{o, ""}
 		// zero value on first read is handled lazily by type: give explicit zeros
 		r.zeroInit(o, "", x.Type().Underlying().(*types.Pointer).Elem())
@@ -788,6 +794,12 @@ func (r *Run) sliceObj(name string) *Obj {
 }
 
 func (r *Run) zeroInit(o *Obj, path string, t types.Type) {
+	set := func(v Val) {
+		if _, ok := o.cells[path]; !ok {
+			o.order = append(o.order, path)
+		}
+		o.cells[path] = v
+	}
 	switch u := t.Underlying().(type) {
 	case *types.Struct:
 		for i := 0; i < u.NumFields(); i++ {
@@ -796,16 +808,16 @@ func (r *Run) zeroInit(o *Obj, path string, t types.Type) {
 	case *types.Basic:
 		switch {
 		case u.Info()&types.IsInteger != 0:
-			o.cells[path] = intConst(0)
+			set(intConst(0))
 		case u.Kind() == types.Bool:
-			o.cells[path] = boolConst(false)
+			set(boolConst(false))
 		case u.Kind() == types.String:
-			o.cells[path] = VConst{V: constant.MakeString(""), T: t}
+			set(VConst{V: constant.MakeString(""), T: t})
 		}
 	case *types.Pointer, *types.Slice, *types.Map, *types.Interface, *types.Signature:
-		o.cells[path] = VConst{V: nil, T: t}
+		set(VConst{V: nil, T: t})
 	case *types.Array:
-		// elements are zero-initialised lazily: handled by load when small arrays are indexed by constants
+		// elements are zero-initialised lazily
 	}
 }
 
